@@ -7,22 +7,38 @@ package importer
 // The local importer's code cache is shared by every VM that uses the importer: accessed only under its mutex.
 //@ guardedfield LocalImporter.codeCache mutex
 
+// C14 (each module is compiled once per importer and has its own code object): the cache is keyed by the module
+// NAME - after a successful import the cache holds an entry under the name, and an entry created by this call is
+// the freshly compiled code (never a code object that some other name may already own).
+// Assumed: parseAndCompile returns a fresh code object (it ends in compiler.Compile); NewModule keeps the code it
+// is given and writes nothing the importer owns (object.NewModule: assumed frame).
+//@ func parseAndCompile
+//@ trusted
+//@ modcomps H_ E_ M G_ C_
+//@ ensures result1 == nil ==> result0 != nil && fresh(result0)
+//@ ensures result1 != nil ==> result0 == nil
+
 //@ func (*LocalImporter).Import
-//@ props C09
-//@ requires i != nil
+//@ props C09 C14
+//@ requires i != nil && i.codeCache != nil
 //@ requires[C09.unlocked] !ghost("lock.w", bool, &i.mutex)
-//@ havoc parseAndCompile readFileWithExtensions NewModule
+//@ havoc readFileWithExtensions
 //@ modcomps H_ E_ M G_ C_
 //@ modifies ghost("lock.w", bool, &i.mutex)
 //@ assumeframe
+//@ assume[repr.cache.nonnil] forallU(k, string, haskey(i.codeCache, k) ==> i.codeCache[k] != nil)
 //@ ensures[C09.released] !ghost("lock.w", bool, &i.mutex)
+//@ ensures[C14.cache.byname] result1 == nil ==> haskey(i.codeCache, name) && i.codeCache[name] != nil
+//@ ensures[C14.cache.fresh] result1 == nil && !old(haskey(i.codeCache, name)) ==> fresh(i.codeCache[name])
+//@ ensures[C14.cache.kept] result1 == nil && old(haskey(i.codeCache, name)) && old(i.codeCache[name]) != nil ==> i.codeCache[name] == old(i.codeCache[name])
 
 //@ scan[C09.importer.cache.users] C09 fieldwriters LocalImporter.codeCache: NewLocalImporter Import
 
-// Importers do not touch the VM's mutexes or registers (assumed for every implementation).
+// Importers do not touch the VM's mutexes or registers, nor its table of loaded modules (an unexported field of the
+// VM; assumed for every implementation).
 //@ func (Importer).Import
 //@ trusted
-//@ modcomps H_compiler_ H_object_ H_importer_ H_ast_ H_parser_ H_lexer_ E_ M G_ C_
+//@ modcomps H_compiler_ H_object_ H_importer_ H_ast_ H_parser_ H_lexer_ E_ M G_ C_ -MD_string_Pobject_Module -MV_string_Pobject_Module
 
 // ---- C14: which file an import reads ----------------------------------------------------------------------------
 // The only file names tried are Join(dir, name+ext) for the configured extensions, in order; the first that can be
